@@ -74,6 +74,20 @@ theorem reap_crash_safe_with_verification {c : Ctx D} {s0 : FS D} {dw0 : Option 
   rw [e]
   exact reap_crash_safe w hW hm cut' cuts
 
+/-- The check before an interrupted plan is resumed (`verifyPlanInputs`, `fix:` 34030d3; run by
+`reapInternal` and by `Store.check` at every start): in every state an interrupted reap and any
+number of interrupted recoveries can leave, its database-file check never raises a false alarm —
+it is made only while NO source WAL has been consumed and none sits next to the database, when the
+file is still the one its sidecar describes. (`hcrc`: before the reap the full snapshot's sidecar,
+if present, matches its database. The WAL-file half of the check is C12's: checksums of files that
+have not been touched.) -/
+theorem resume_verification_never_false_alarm {c : Ctx D} {s0 : FS D} {dw0 : Option Nat} (w : WF c s0 dw0)
+    (hW : c.W ≠ []) (hm : c.olds ≠ [] ∨ c.newers ≠ []) (hcrc : ∀ y, c.full.crc = some y → y = c.d0)
+    (cut : ReapCut) (cuts : List RecCut) :
+    let s := cuts.foldl (recCrash c.A) (reapCrash c.A s0 c.newName c.verify cut)
+    ∀ p, s.plan = some p → ∀ n W, Op.checkpoint n W ∈ p → DbCheckPasses dbUntouched s n W :=
+  dbCheck_reach w.good hcrc (foldl_recCrash_reach w.good cuts (reapCrash_reach w hW hm cut))
+
 /-- a reap that passes its verification is the reap of the plan model; one that does not returns
 an error and (returning no state) has written nothing -/
 theorem reap_verification_passes_or_touches_nothing (A : DbAlg D) (s : FS D) (nn : Nat) (v vok iok : Bool) :
@@ -214,7 +228,8 @@ the resume branch (the plan was just read from REAP_PLAN) and the final return a
 WriteToFile; no branch (in particular not the remove-only one) executes a plan that is not on disk.
 The verification steps of `reapGate` are where the model puts them: ensureVerified in the else
 branch of the resume test, inputs.Check under `len(walFiles) > 0` after the scan and before the
-plan is written. -/
+plan is written. The resume path's check (`dbUntouched`) has the condition of the source text, and
+both places that resume a plan (reapInternal, Store.check) run it before executing. -/
 theorem plan_shape_from_source :
     RqModel.Gen.PlanShapes.reapConsolidate =
       [("AddCheckpoint", ""), ("AddCalcCRC32", ""), ("AddRemoveAll", "newerSet"), ("AddRemoveAll", "olderSet"),
@@ -225,7 +240,12 @@ theorem plan_shape_from_source :
     RqModel.Gen.PlanShapes.reapFreshPathSteps =
       ["ensureVerified", "getSnapshots", "inputs.Check", "plan.WriteToFile", "executeReapPlan"] ∧
     RqModel.Gen.PlanShapes.reapVerifiesOnlyWhenNotResuming = true ∧
-    RqModel.Gen.PlanShapes.reapInputsCheckGuard = "len(walFiles) > 0" := by decide
+    RqModel.Gen.PlanShapes.reapInputsCheckGuard = "len(walFiles) > 0" ∧
+    RqModel.Gen.PlanShapes.resumeDbCheckCondition =
+      ["untouched := len(op.WALs) > 0 && !fsutil.FileExists(op.DB+\"-wal\")",
+       "for w in op.WALs: if !fsutil.FileExists(w) { untouched = false }",
+       "if untouched { check(op.DB) }"] ∧
+    RqModel.Gen.PlanShapes.resumeChecksBeforeExecuting = true := by decide
 
 /-! ### non-vacuity: a concrete store satisfying every hypothesis -/
 section Example
@@ -285,6 +305,27 @@ example : ∃ s3 snaps3,
   ⟨s3, snaps3, h1, h2, h3⟩
 
 example : observe exA exCtx.snaps = some (50, 2, some 5) := by decide
+
+/-- Why the condition must be "no source WAL consumed" and not "some source WAL pending": the state
+after a crash BETWEEN two WAL checkpoints of the example's three-WAL reap (the first WAL fully
+checkpointed and removed, the second not yet renamed). The database has legitimately been rewritten
+(2 → 3) while its sidecar is still the pre-reap one; the correct condition does not check it, the
+weaker one raises a false CRC alarm — at every start. -/
+def exBetween : FS Nat := mk exCtx noOth (.ckpt [(2, 3)] 3 none) (some exCtx.plan) false
+
+theorem resume_check_between_wals_witness :
+    dbUntouched exBetween 2 exCtx.W = false ∧ dbUntouchedWrong exBetween 2 exCtx.W = true ∧
+    ¬ DbCheckPasses dbUntouchedWrong exBetween 2 exCtx.W ∧
+    DbCheckPasses dbUntouched exBetween 2 exCtx.W := by
+  have h1 : dbUntouched exBetween 2 exCtx.W = false := by decide
+  have h2 : dbUntouchedWrong exBetween 2 exCtx.W = true := by decide
+  refine ⟨h1, h2, ?_, ?_⟩
+  · intro h
+    have hd : exBetween.dir 2 = some { tmp := false, mt := some ⟨2, 30, 1⟩, db := some 3, crc := some 2, dbWal := none, wals := [] } := by
+      rfl
+    have := h h2 _ hd 3 2 rfl rfl
+    exact absurd this (by decide)
+  · intro h; rw [h1] at h; cases h
 
 end Example
 
